@@ -552,6 +552,31 @@ fn parse_rust(text: &str) -> Result<syn::File, GenFail> {
 }
 
 /// Run the real generator for one program; the result is the parsed generated Rust.
+/// A small file of another package with one service, for multi-package generator runs.
+fn neighbour_file(name: &str, package: &str, service: &str) -> prost_types::FileDescriptorProto {
+    use prost_types::{DescriptorProto, FieldDescriptorProto, FileDescriptorProto, MethodDescriptorProto, ServiceDescriptorProto};
+    let msg = |n: &str| DescriptorProto {
+        name: Some(n.to_string()),
+        field: vec![FieldDescriptorProto { name: Some("x".into()), number: Some(1), label: Some(1), r#type: Some(5), json_name: Some("x".into()), ..Default::default() }],
+        ..Default::default()
+    };
+    FileDescriptorProto {
+        name: Some(name.to_string()),
+        package: Some(package.to_string()),
+        message_type: vec![msg("Ping"), msg("Pong")],
+        service: vec![ServiceDescriptorProto {
+            name: Some(service.to_string()),
+            method: vec![
+                MethodDescriptorProto { name: Some("Hit".into()), input_type: Some(format!(".{package}.Ping")), output_type: Some(format!(".{package}.Pong")), ..Default::default() },
+                MethodDescriptorProto { name: Some("Flow".into()), input_type: Some(format!(".{package}.Ping")), output_type: Some(format!(".{package}.Pong")), server_streaming: Some(true), ..Default::default() },
+            ],
+            options: None,
+        }],
+        syntax: Some("proto3".into()),
+        ..Default::default()
+    }
+}
+
 fn generate(p: &Program) -> Result<syn::File, GenFail> {
     let want_client = p.opts.sides != Sides::ServerOnly;
     let want_server = p.opts.sides != Sides::ClientOnly;
@@ -601,6 +626,11 @@ fn generate(p: &Program) -> Result<syn::File, GenFail> {
                 Err(e) => machinery(format!("protox rejected a program of the grammar ({}): {e}", describe(p))),
             };
             check_descriptor(p, &fds);
+            // the generator run also sees services of OTHER packages, in front of and behind ours
+            // (one build script usually compiles several packages at once)
+            let mut fds = fds;
+            fds.file.insert(0, neighbour_file("aaa_first.proto", "zz.first", "First"));
+            fds.file.push(neighbour_file("zzz_last.proto", "zz.last", "Last"));
             let tmp = TmpDir::new();
             let r = catch_unwind(AssertUnwindSafe(|| {
                 let mut b = tonic_build::configure()
